@@ -126,6 +126,8 @@ type exec struct {
 	ubounds       map[*Term]uint64 // unsigned upper bounds of input variables (from assumptions)
 	lbounds       map[*Term]uint64
 	fromInts      map[*Term]*Term // integer term -> its decimal text term
+	blobOf        map[*Term]*jsonBlob // string(text of a JSON value) -> the value
+	leaseExpiries int
 	fallback      func() *Solver
 	fallbackHits  int
 	knownHits     int
